@@ -20,6 +20,9 @@ def run(ctx):
     tasks = [{"seed": ctx.seed, "shard": i, "count": count, "steps": steps, "nmax": 8, "big": 1 if quick else 4, "big_steps": 20, "monitors": ["rebuild"]}
              for i in range(shards)]
     ctx.map("vlib.histrun", "history_task", tasks, timeout=3000)
+    # the same with assert statements switched off (python -O): edits must not depend on side effects of assertions
+    otasks = [dict(t, shard=100 + t["shard"], count=max(4, t["count"] // 5), big=0) for t in tasks[:4 if quick else 16]]
+    ctx.map("vlib.histrun", "history_task", otasks, timeout=3000, python_flags=("-O",))
     # (b) the real samplers: rebuild_equal as a postcondition of every sample_tree (direct calls and chain runs)
     tasks = [{"seed": ctx.seed, "shard": i, "count": 8 if quick else 120, "moves": 8, "own": "C06"} for i in range(shards)]
     ctx.map("checks.c07", "sampler_task", tasks, timeout=3000)
